@@ -213,6 +213,9 @@ func runC19(c *Ctx) {
 		}
 	}
 
+	if r.Chance(1, 4) {
+		w.cleanFocus()
+	}
 	newObj()
 	nops := r.Range(10, 30)
 	for i := 0; i < nops && !c.Violated(); i++ {
@@ -398,6 +401,89 @@ func runC19(c *Ctx) {
 	}
 }
 
+// cleanFocus is a preamble aimed at Prefix.Clean on a prefix that ends shortly after a parameter: a route ending in the
+// parameter is registered first, then one or two routes that continue it, then the prefix between them is cleaned.
+func (w *c19World) cleanFocus() {
+	r, c := w.c.R, w.c
+	type split struct{ head, ext string }
+	var cands []split
+	for _, q := range w.pool {
+		for i := 0; i+1 < len(q); i++ {
+			if q[i] == '}' {
+				cands = append(cands, split{q[:i+1], q[i+1:]})
+			}
+		}
+	}
+	if len(cands) == 0 {
+		return
+	}
+	s := ref.Pick(r, cands)
+	top := &facadeObj{kind: "prefix", from: s.head + s.ext, pattern: "", mws: nil}
+	top.pA = w.a.Prefix("")
+	w.objs = append(w.objs, top)
+	w.ops = append(w.ops, fmt.Sprintf("o%d := r.Prefix(\"\")", len(w.objs)-1))
+	reg := func(full string) {
+		w.seq++
+		tag := w.seq
+		hA, hB := w.envA.NewHnd(mon.KRoute, full), w.envB.NewHnd(mon.KRoute, full)
+		w.tag[hA], w.tag[hB] = tag, tag
+		pa := guarded(func() { top.pA.Get(full, hA) })
+		pb := guarded(func() { w.b.Handle(full, hB, nil, "GET") })
+		w.ops = append(w.ops, fmt.Sprintf("o%d.Get(%q)  ==  r.Handle(%q, GET)", len(w.objs)-1, full, full))
+		if (pa == nil) != (pb == nil) {
+			c.Violate("registration through the facade and through Router.Handle disagree on acceptance", map[string]any{"program": w.ops, "facade_panic": fmt.Sprint(pa), "plain_panic": fmt.Sprint(pb)})
+			return
+		}
+		if pb == nil {
+			if w.live[full] == nil {
+				w.live[full] = map[string]bool{}
+			}
+			w.live[full]["GET"] = true
+		}
+	}
+	order := []string{s.head, s.head + s.ext}
+	if r.Chance(1, 3) {
+		order = append(order, s.head+s.ext+ref.Pick(r, []string{"/z", "x"}))
+	}
+	if r.Chance(1, 3) {
+		order[0], order[1] = order[1], order[0]
+	}
+	for _, p := range order {
+		reg(p)
+		if c.Violated() {
+			return
+		}
+	}
+	w.compareAll()
+	k := 1 + r.Intn(min(3, len(s.ext)))
+	o := &facadeObj{kind: "prefix", from: s.head + s.ext, pattern: s.head + s.ext[:k]}
+	if r.Bool() {
+		o.pA = w.a.Prefix(o.pattern)
+		w.ops = append(w.ops, fmt.Sprintf("o%d := r.Prefix(%q)", len(w.objs), o.pattern))
+	} else {
+		cut := gen.Cut(r, s.head)
+		o.pA = w.a.Prefix(s.head[:cut]).Prefix(s.head[cut:] + s.ext[:k])
+		w.ops = append(w.ops, fmt.Sprintf("o%d := r.Prefix(%q).Prefix(%q)", len(w.objs), s.head[:cut], s.head[cut:]+s.ext[:k]))
+	}
+	w.objs = append(w.objs, o)
+	o.pA.Clean()
+	var del []string
+	for p := range w.live {
+		if strings.HasPrefix(p, o.pattern) {
+			del = append(del, p)
+		}
+	}
+	sort.Strings(del)
+	for _, p := range del {
+		w.b.Remove(p)
+		delete(w.live, p)
+	}
+	w.ops = append(w.ops, fmt.Sprintf("o%d.Clean()  ==  r.Remove(p) for %v", len(w.objs)-1, del))
+	c.Class("prefix_clean")
+	c.Class("prefix_clean_just_after_parameter")
+	w.compareAll()
+}
+
 func ifEmpty(s, d string) string {
 	if s == "" {
 		return d
@@ -411,11 +497,11 @@ func init() {
 		Anchors: []string{"router.go:Prefix", "router.go:Resource", "router.go:Clean", "node.go:clean", "router.go:Remove", "router.go:URL"},
 		Cases:   func(t string) int { return map[string]int{"quick": 4000, "thorough": 80000}[t] },
 		Run:     runC19,
-		Rule: "case = random facade program (10-30 steps: Prefix / nested Prefix / Resource creation with middlewares, prefixes cut anywhere incl. empty and inside a parameter token; Get/Post/Put/Delete/Patch/Any/Handle; Remove; Clean; URL) executed on router A and its translation into Router.Handle/Remove/URL calls with concatenated patterns and middleware lists on router B; after every step Routes(), a probe battery per pool pattern x 5 methods (status, paired handler, params, executed middleware chain, Allow), URL results and panics must agree; " +
+		Rule: "case = random facade program (10-30 steps: Prefix / nested Prefix / Resource creation with middlewares, prefixes cut anywhere incl. empty and inside a parameter token; Get/Post/Put/Delete/Patch/Any/Handle; Remove; Clean; URL; one program in four starts with a Clean-focused preamble: a route ending in a parameter, one or two routes continuing it in either order, then Prefix.Clean on the prefix 1-3 bytes past the parameter) executed on router A and its translation into Router.Handle/Remove/URL calls with concatenated patterns and middleware lists on router B; after every step Routes(), a probe battery per pool pattern x 5 methods (status, paired handler, params, executed middleware chain, Allow), URL results and panics must agree; " +
 			"non-trivial (distinct by program text) = every program",
 		Floors: func(t string) map[string]int64 {
 			if t == "quick" {
-				return map[string]int64{"facade_registration_accepted": 4000, "prefix_clean": 800, "resource_clean": 300, "facade_url": 1200, "program_with_nested_facade": 500, "facade_remove": 1500}
+				return map[string]int64{"facade_registration_accepted": 4000, "prefix_clean": 800, "prefix_clean_just_after_parameter": 400, "resource_clean": 300, "facade_url": 1200, "program_with_nested_facade": 500, "facade_remove": 1500}
 			}
 			return map[string]int64{"facade_registration_accepted": 150000, "prefix_clean": 20000}
 		},
